@@ -14,6 +14,8 @@ import (
 	"verif/mc/fixture"
 	"verif/mc/model"
 	"verif/mc/pkgread"
+
+	"github.com/goreleaser/nfpm/v2"
 )
 
 // Setting is one deviation from the default build settings.
@@ -25,6 +27,11 @@ type Setting struct {
 	DebCompress string      `json:"deb_compression,omitempty"`
 	RPMCompress string      `json:"rpm_compression,omitempty"`
 	Only        string      `json:"only,omitempty"` // the single format the setting concerns ("" = all)
+	// RPMPrefixes: rpm.prefixes (a relocatable package); the payload is what it is without them
+	RPMPrefixes []string `json:"rpm_prefixes,omitempty"`
+	// GoUmask0: the library user sets Umask to 0 on the effective settings after WithDefaults (a document cannot say
+	// so: 0 means "default" there): no permission bit is masked
+	GoUmask0 bool `json:"go_umask_0,omitempty"`
 }
 
 func (s Setting) pkgMTime() time.Time {
@@ -44,6 +51,9 @@ func (s Setting) pkgMTime() time.Time {
 }
 
 func (s Setting) umask() os.FileMode {
+	if s.GoUmask0 {
+		return 0
+	}
 	if s.Umask == 0 {
 		return 0o002
 	}
@@ -89,6 +99,9 @@ func (s Setting) doc(list []model.Entry, root string) fixture.Doc {
 	rpm := map[string]any{"buildhost": "buildhost.example"}
 	if s.RPMCompress != "" {
 		rpm["compression"] = s.RPMCompress
+	}
+	if len(s.RPMPrefixes) > 0 {
+		rpm["prefixes"] = s.RPMPrefixes
 	}
 	d["rpm"] = rpm
 	return d
@@ -286,6 +299,21 @@ func init() {
 					}
 				}
 				if !yield(C01Case{Setting: s, List: fr}) {
+					return
+				}
+			}
+			// a relocatable rpm (rpm.prefixes) with entries at, below and beside the prefixes; the umask set to 0 in Go
+			for _, l := range [][]model.Entry{
+				{{Dst: "/opt/app", Type: "dir", Mode: 0o750, Owner: "app", Group: "grp"}, {Src: "bin/app", Dst: "/opt/app/bin/app"}},
+				{{Src: "tree", Dst: "/opt/app", Type: "tree"}, {Dst: "/usr", Type: "dir"}, {Src: "etc/app.conf", Dst: "/usr/etc/app.conf", Type: "config"}},
+				{{Src: "/t", Dst: "/opt/app", Type: "symlink"}, {Dst: "/opt/app2", Type: "dir"}},
+			} {
+				if !yield(C01Case{Setting: Setting{Name: "rpm.prefixes", RPMPrefixes: []string{"/opt/app", "/usr"}}, List: l}) {
+					return
+				}
+			}
+			for _, e := range []model.Entry{{Src: "share/ww.txt", Dst: "/opt/ww.txt"}, {Src: "tree", Dst: "/opt/tree", Type: "tree"}, {Src: "etc/", Dst: "/cfg"}, {Src: "bin/suid", Dst: "/usr/bin/suid"}, {Src: "etc/app.conf", Dst: "/etc/app.conf", Type: "config"}, {Dst: "/var/lib/app", Type: "dir"}} {
+				if !yield(C01Case{Setting: Setting{Name: "umask=0 set in Go", GoUmask0: true}, List: []model.Entry{e}}) {
 					return
 				}
 			}
@@ -618,6 +646,26 @@ func checkC01(env *engine.Env, ci any) engine.Outcome {
 				Detail: fmt.Sprintf("format=%s setting=%s list=%s source-tree-change-before-this-build=%q\n", f, c.Setting.Name, descList(c.List), c.Mutate) + fmt.Sprintf(format, a...)})
 		}
 		data, err := buildYAML(text, f)
+		if c.Setting.GoUmask0 {
+			data, err = func() ([]byte, error) {
+				cfg, perr := parseYAML(text, nil)
+				if perr != nil {
+					return nil, perr
+				}
+				info, gerr := safeGet(&cfg, f)
+				if gerr != nil {
+					return nil, gerr
+				}
+				info = nfpm.WithDefaults(info)
+				info.Umask = 0
+				p, _ := nfpm.Get(f)
+				var buf bytes.Buffer
+				if perr := p.Package(info, &buf); perr != nil {
+					return nil, perr
+				}
+				return buf.Bytes(), nil
+			}()
+		}
 		if want.Collision || want.OtherErr != "" {
 			keys = append(keys, f+":rejected")
 			if err == nil {
@@ -646,7 +694,7 @@ func checkC01(env *engine.Env, ci any) engine.Outcome {
 		keys = append(keys, f+":"+k)
 		// the same settings built as a library user would build them in Go (a deep copy sharing nothing with the parsed
 		// configuration, empty lists and maps written the other way round): the same package, byte for byte
-		if len(c.List) == 1 && c.Mutate == "" && c.Spell == "" && !strings.HasPrefix(c.List[0].Src, "huge") && !strings.HasPrefix(c.List[0].Src, "many") && !c.Setting.pkgMTime().IsZero() {
+		if len(c.List) == 1 && c.Mutate == "" && c.Spell == "" && !c.Setting.GoUmask0 && !strings.HasPrefix(c.List[0].Src, "huge") && !strings.HasPrefix(c.List[0].Src, "many") && !c.Setting.pkgMTime().IsZero() {
 			cd, cerr := packageCloned(text, f, true)
 			out.Transitions++
 			if cerr != nil {
